@@ -17,7 +17,7 @@ ASSUMPTIONS = ["CPython io: seek/read/readinto on the ghost byte function of the
 NOT_PROVED = ["get_interval_sequences: the CONTENT clause (row j is exactly the bases a_j..b_j-1) - proved are the row lengths, the allocation offsets, that the "
               "deleted positions are in bounds, strictly increasing and that (start_mod + p) // lenc newline bytes precede the p-th surviving byte; the last "
               "step needs uniqueness of division by a symbolic divisor (solver timeouts): bounded (rtc/enum_c17.py, every interval of every small FASTA)",
-              "_get_interval_sequences_fast (string-encoded chromosome column): bounded", "FastaIdxBuffer.get_data, read_index, Genome.read_sequence: bounded"]
+              "_get_interval_sequences_fast: same accounting clauses as the per-interval path are proved; content clause and the label-order correspondence of index_table[chromosome_i] are bounded", "FastaIdxBuffer.get_data, read_index, Genome.read_sequence: bounded"]
 
 
 def _indexed_fasta():
@@ -408,3 +408,126 @@ interval_sequences = Contract("C17.IndexedFasta.get_interval_sequences[LF record
                               canaries=[("newline positions shifted", "lenb*(j+1)-1-start_mod", "lenb*(j+1)-start_mod"),
                                         ("stop offset without the row term", "stop_offset = stop_row*lenb+interval.stop % lenc", "stop_offset = stop_row*lenc+interval.stop % lenc")])
 CONTRACTS.append(interval_sequences)
+
+
+# ---------------------------------------------------------------------------------------------
+# _get_interval_sequences_fast (string-encoded chromosome column): the vectorised offsets and the per-interval loop.  Proved (accounting, as
+# for the per-interval path): every read span has exactly (stop - start) surviving bytes after the newline positions are deleted, so the
+# segments written at the prefix sums of the lengths tile the pre-allocated array exactly; deleted positions are increasing and inside the
+# span; the number of newline bytes dropped before the p-th surviving byte is (start_mod + p) // lenc; the stores are in bounds.
+# ASSUMED: index_table[chromosome_i] is, row by row, the faidx entry of each interval's own chromosome (label order: bounded, rtc/enum_c17.py).
+class _FastChromCol:
+    def __init__(self, st):
+        self.st = st
+
+    def getattr(self, ip, name, lineno):
+        if name == "encoding":
+            return SRec(None, get_labels=_Const([]))
+        if name == "raw":
+            return _Const(Opaque("chromosome codes"))
+        raise Exception("chromosome column attribute " + name)
+
+
+class _Const:
+    def __init__(self, v):
+        self.v = v
+
+    def sym_call(self, ip, args, kwargs, lineno):
+        return self.v
+
+
+class _IdxTable:
+    """FastaIdx.from_entry_tuples(...)[chromosome_i]: the faidx entry of interval i's chromosome, as columns (assumed)"""
+
+    def __init__(self, st):
+        self.st = st
+
+    def getitem(self, ip, idx, lineno):
+        st = self.st
+        col = lambda f: SArr.fresh(st.n, lambda i, f=f: f(st.chrom(I(i))))
+        return STable({"start": col(st.OF), "characters_per_line": col(st.LC), "line_length": SArr.fresh(st.n, lambda i: st.LC(st.chrom(I(i))) + 1),
+                       "length": col(st.RL)}, st.n)
+
+
+_hf = {}
+
+
+def _setup_fast(ctx):
+    st = St()
+    st.n, st.flen = z3.Int("n_intervals"), z3.Int("flen")
+    st.F = z3.Function("F", z3.IntSort(), z3.IntSort())
+    st.chrom, st.a, st.b = [z3.Function(x, z3.IntSort(), z3.IntSort()) for x in ("chrom", "ivstart", "ivstop")]
+    st.RL, st.OF, st.LC, st.LB = [z3.Function(x, z3.IntSort(), z3.IntSort()) for x in ("rlen", "offset", "lenc", "lenb")]
+    st.file = SFile(st.flen, lambda p: st.F(I(p)))
+    ctx.normalise_products = True
+    st.selfv = SRec(_indexed_fasta(), _index=_SymIndex(st), _f_obj=st.file)
+    st.table = STable({"chromosome": _FastChromCol(st), "start": SArr.fresh(st.n, lambda j: st.a(I(j))), "stop": SArr.fresh(st.n, lambda j: st.b(I(j)))}, st.n)
+    st.args = [st.table]
+    _hf["st"] = st
+    ctx.ip.loop_specs[("IndexedFasta._get_interval_sequences_fast", 0)] = LoopSpec(_inv_fast(st), _havoc_fast(st))
+    return st
+
+
+def _inv_fast(st):
+    def inv(ip, env):
+        it = env.vars["_it"]
+        pre = env.vars["pre_alloc"]
+        C = pre.length.decl()
+        st.Cdecl, st.it_term = C, it
+        return [("every.byte.placed.so.far.is.a.base (non-NUL)", Forall(lambda p: Implies(in_range(p, C(I(it))), I(pre.at(p)) > 0)))]
+    return inv
+
+
+def _havoc_fast(st):
+    def havoc(ip, env):
+        c = ip.ctx
+        pre = env.vars["pre_alloc"]
+        g = c.fresh_fun("pre_alloc_content")
+        pre.buf.at = lambda p, g=g: g(I(p))
+        st.file.pos = c.fresh_int("filepos")
+        c.assume(I(st.file.pos) >= 0)
+    return havoc
+
+
+def _ghost_fast_store(ip, env, st):
+    """at the store: the surviving bytes of this read span are exactly (stop - start) many - the segments tile the pre-allocated array"""
+    c = ip.ctx
+    it = env.vars["_it"]
+    seq = env.vars["sequence"]
+    c.oblige("%s:segment.i.has.exactly.stop-start.bytes" % c.fname, I(seq.length) == st.b(I(it)) - st.a(I(it)), "lemma")
+    c.oblige("%s:segment.i.starts.at.the.sum.of.the.earlier.lengths" % c.fname, I(env.vars["a_offset"]) == st.Cdecl(I(it)), "lemma")
+    if hasattr(seq, "delete_of"):
+        d, fi, m, n = seq.delete_of
+        lenc, m0 = st.LC(st.chrom(I(it))), env.vars["start_mod"]
+
+        def quot(p):
+            q, r = M._divmod_noassert(I(m0) + I(p), lenc)
+            return q
+        c.oblige("%s:lemma.newlines.before.the.p-th.base" % c.fname, Forall(lambda p: Implies(in_range(p, seq.length), d(I(p)) == quot(p))), "lemma")
+
+
+def _ghost_fast_lengths(ip, env, st):
+    """`(stop - start)` is computed twice (size of the allocation, row lengths): equal summands have equal prefix sums (lemma L6)"""
+    lengths, pre = env.vars["lengths"], env.vars["pre_alloc"]
+    C1 = pre.length.decl()
+    fl = lengths.snapshot()
+    C2 = M2.exclusive_prefix(fl, lengths.length, lengths)
+    M2.prefix_congruent(C2, fl, C1, lambda j: st.b(I(j)) - st.a(I(j)), st.n)
+    M2.prefix_monotone(C2, fl, st.n, "lemma.lengths.nonneg")
+
+
+def _ens_fast(ctx, st, ret):
+    return [("rows", I(ret.n) == st.n),
+            ("row.lengths", Forall(lambda j: Implies(in_range(j, st.n), I(ret.lens(j)) == st.b(j) - st.a(j))))]
+
+
+fast_sequences = Contract("C17.IndexedFasta._get_interval_sequences_fast[LF records]", target=lambda: _indexed_fasta()._get_interval_sequences_fast,
+                          setup=_setup_fast, requires=_req_gis, ensures=_ens_fast, timeout_ms=60000, hints=_hints_gis,
+                          callees={"bionumpy.bnpdataclass.bnpdataclass.BNPDataClass.from_entry_tuples": lambda ip, args, kwargs, lineno: _IdxTable(_hf["st"])},
+                          ghost=[("n_rows = stop_rows-start_rows", _ghost_fast_lengths),
+                                 ("pre_alloc[a_offset:a_offset+sequence.size] = sequence", _ghost_fast_store)],
+                          canaries=[("newline positions shifted", "lenb*(j+1)-1-start_mod", "lenb*(j+1)-start_mod"),
+                                    ("stop offset with the wrong row stride", "stop_offsets = stop_rows*indices.line_length+", "stop_offsets = stop_rows*indices.characters_per_line+"),
+                                    ("segments placed at the inclusive prefix sums", "offsets = np.insert(np.cumsum(lengths), 0, 0)", "offsets = np.cumsum(lengths)"),
+                                    ("start offset without the column", "start_offsets = start_rows*indices.line_length+start_mods", "start_offsets = start_rows*indices.line_length")])
+CONTRACTS.append(fast_sequences)
